@@ -205,6 +205,10 @@ def bracket : Str → Option Eaten
   | ch :: r => match bracketType ch with | some k => some ⟨.bracket (isOpenBracket ch) k, [ch], r⟩ | none => none
   | [] => none
 
+/-- `repeater(scanner, ctx)`: inside text (`{…}`) or a quoted value `*` is a plain character -/
+def repeaterCtx (rest : Str) (ctx : Ctx) : Option Eaten :=
+  if ctx.expr != 0 || ctx.quote.isSome then none else repeater rest
+
 /-- one iteration of the main loop: the first consumer that succeeds -/
 def step (rest : Str) (pos : Nat) (prev : Option Ch) (ctx : Ctx) : Except Err (Option (Eaten × Ctx)) :=
   match field rest pos ctx with
@@ -217,7 +221,7 @@ def step (rest : Str) (pos : Nat) (prev : Option Ch) (ctx : Ctx) : Except Err (O
     match repeaterNumber rest with
     | some e => .ok (some (e, ctx))
     | none =>
-    match repeater rest with
+    match repeaterCtx rest ctx with
     | some e => .ok (some (e, ctx))
     | none =>
     match whiteSpace rest with
